@@ -1,7 +1,7 @@
 ID = "C02"
 CLUSTER = "cbor"
 EXTRACT_V = "ExtractCbor.v"
-MODEL_DEPS = ["Base/Bytes.v", "Base/GoSem.v", "Gen/FromGo.v", "DM/Value.v", "Codec/Cid.v", "Codec/Cbor.v"]
+MODEL_DEPS = ["Base/Bytes.v", "Base/GoSem.v", "Gen/FromGo.v", "DM/Value.v", "Codec/Cid.v", "Codec/Cbor.v", "Codec/CborSpec.v"]
 DRIVER = "c02_driver"
 HARNESS = "c02"
 COUNTS = {"quick": 3000, "thorough": 150000}
